@@ -91,8 +91,25 @@ func c20Gen(r *kit.Rng) *sched.Scenario {
 				if len(paths) > 0 && r.Chance(2, 3) {
 					p = paths[r.Intn(len(paths))].String()
 				}
+				var names []string
+				s.Walk(func(x *schema.Node) {
+					if x.IsData() {
+						names = append(names, x.Name)
+					}
+				})
+				nm := func() string { return names[r.Intn(len(names))] }
 				q := ""
-				switch r.Intn(6) {
+				switch r.Intn(11) {
+				case 6:
+					q = "fields=" + nm() + ";" + nm()
+				case 7:
+					q = "fc.xfields=" + nm()
+				case 8:
+					q = "fc.range=" + nm() + "!1-2"
+				case 9:
+					q = "where=" + nm() + "%3D1"
+				case 10:
+					q = "fc.max-node-count=50&with-defaults=trim"
 				case 0:
 					q = fmt.Sprintf("depth=%d", r.Range(1, 4))
 				case 1:
